@@ -207,7 +207,9 @@ func raceRepoFunc(fr []raceFrame) (string, int) {
 			continue
 		}
 		if strings.HasPrefix(f.fn, repoPrefix+"verifsim.") || strings.HasPrefix(f.fn, repoPrefix+"verifsim/") {
-			continue
+			// the access was made by the kernel (e.g. a runtime helper it called); the frames
+			// below it belong to whatever the goroutine was running and say nothing about it
+			return "", 2
 		}
 		if strings.Contains(f.file, "zz_verif") || strings.Contains(f.file, "/harness/") || strings.Contains(f.file, "/detsim/") {
 			return "", 2
